@@ -77,7 +77,9 @@ def expected_tokens(stream):
             out.append(["other", ty])
     for e in out:
         if e[0] == "chars":
+            raw = e[1]
             e[1] = join_surrogates(e[1])  # a pair split over two adjacent text tokens is one character as well
+            e.append(raw)                  # (kept: the serializer saw the two halves in separate tokens)
     return out
 
 
@@ -367,7 +369,8 @@ def judge(ctx, case, stream, opts, scripting, label):
                     return c
                 except UnicodeEncodeError:
                     return charref.numeric_value(ord(c))
-            if "".join(conv(c) for c in e[1]) == tok[1] or rtok.preprocess("".join(conv(c) for c in e[1])) == tok[1]:
+            if any("".join(conv(c) for c in cand) == tok[1] or rtok.preprocess("".join(conv(c) for c in cand)) == tok[1]
+                   for cand in ([e[1]] + ([e[2]] if len(e) > 2 and e[2] != e[1] else []))):
                 known("unencodable-character-with-unfaithful-numeric-reference", where)
                 i += 1
                 continue
